@@ -50,7 +50,7 @@ static entry const table[] = {
     {"asech", a_complex_asech_, 0, 0, 0, 0}, {"acsch", a_complex_acsch_, 1, 0, 0, 0}, {"acoth", a_complex_acoth_, 1, 0, 0, 0},
     {"inv", a_complex_inv_, 1, 1, 0, 0},
 };
-static a_real const mags[] = {(a_real)(1.0 / 1048576), (a_real)0.125, (a_real)0.3125, (a_real)0.75, (a_real)1.1875, (a_real)3, (a_real)20};
+static a_real const mags[] = {(a_real)7.888609052210118e-31 /* 2^-100 */, (a_real)(1.0 / 1048576), (a_real)0.125, (a_real)0.3125, (a_real)0.75, (a_real)1.1875, (a_real)3, (a_real)20};
 
 static void unary(entry const *t, a_real re, a_real im)
 {
@@ -241,14 +241,14 @@ int main(int argc, char **argv)
         }
         if (t->axes)
         {
-            for (int i = 1; i < 6; ++i)
+            for (int i = 2; i < 7; ++i)
             {
                 unary(t, mags[i], 0); unary(t, -mags[i], 0); unary(t, 0, mags[i]); unary(t, 0, -mags[i]);
             }
         }
         if (t->cut == 1)
         {
-            for (int i = 1; i < 6; ++i) { unary(t, mags[i], 0); unary(t, 0, mags[i]); unary(t, 0, -mags[i]); }
+            for (int i = 2; i < 7; ++i) { unary(t, mags[i], 0); unary(t, 0, mags[i]); unary(t, 0, -mags[i]); }
         }
     }
     /* binary / scalar forms and inverse pairs */
@@ -317,7 +317,7 @@ int main(int argc, char **argv)
     both_forms();
     real_variants();
     /* real helpers (C11) */
-    static double const rx[] = {1e-300, 1e-18, 1e-9, 1e-5, 0.01, 0.3, 0.5, 0.75, 0.99, 1.0, 1.5, 2.0, 2.5, 10.0, 1e5, 6.7e7, 1e8, 1e10, 1e20, 1e150, 1e300};
+    static double const rx[] = {1e-300, 1e-18, 1e-9, 1e-5, 0.01, 0.3, 0.5, 0.75, 0.99, 0.999999, 1.0, 1.0000001, 1.0001, 1.001, 1.01, 1.1, 1.5, 1.99, 2.0, 2.01, 2.5, 10.0, 1e5, 6.7e7, 1e8, 1e10, 1e20, 1e150, 1e300};
     for (size_t i = 0; i < sizeof(rx) / sizeof(rx[0]); ++i)
     {
         for (int s = 0; s < 2; ++s)
